@@ -863,7 +863,10 @@ class TypeVariable(TypeInstance):
             self.bind(Top())
             return
         self.wildcard = False  # once constrained, lose wildcard status
-        assert not self.bound
+        if self.bound:
+            # already resolved in the meantime: check the resolved type
+            new().unify(self.bound, subtype=True)
+            return
         # fail when lower bound exceeds upper
         if self.upper and self.upper.subtype(new, True):
             raise SubtypeMismatch(new, self.upper)
@@ -881,8 +884,9 @@ class TypeVariable(TypeInstance):
         else:
             assert self.lower
             raise SubtypeMismatch(self.lower, new)
-        # if A <= x <= A, immediately bind x to A
-        if self.lower and self.lower == self.upper:
+        # if A <= x <= A, immediately bind x to A (unless checking the
+        # constraints has resolved x already)
+        if not self.bound and self.lower and self.lower == self.upper:
             self.bind(self.lower())
 
     def below(self, new: TypeOperator) -> None:
@@ -895,7 +899,9 @@ class TypeVariable(TypeInstance):
             self.bind(Bottom())
             return
         self.wildcard = False
-        assert not self.bound
+        if self.bound:
+            self.bound.unify(new(), subtype=True)
+            return
         if self.lower and new.subtype(self.lower, True):
             raise SubtypeMismatch(self.lower, new)
         elif self.lower and not self.lower.subtype(new):
@@ -908,7 +914,7 @@ class TypeVariable(TypeInstance):
         else:
             assert self.upper
             raise SubtypeMismatch(new, self.upper)
-        if self.upper and self.upper == self.lower:
+        if not self.bound and self.upper and self.upper == self.lower:
             self.bind(self.upper())
 
 
@@ -1073,7 +1079,8 @@ class EliminationConstraint(Constraint):
             if add:
                 minimized.append(obj.follow().fix())
         self.reference = self.reference.follow()
-        self.alternatives = minimized
+        # fixing a later alternative may have bound an earlier one
+        self.alternatives = [m.follow() for m in minimized]
 
     def fulfill(self) -> bool:
         if self.fulfilled:
